@@ -1,5 +1,5 @@
 # replay of a bounded stand-in violation (C06): re-run native/c06_measure.py
 import sys
-print('bosonic MeasureThreshold on mode 1, outcome 1 (probability 0.276): mode 0 has (<n>, <x>, <p>) = [0.4458, 0.9426, 0.1606], the conditional state has [0.3615, 0.6787, 0.3409]')
+print('fock(pure=True) measure_fock([2, 0, 1]): RNG picked photon numbers {0: np.int64(0), 1: np.int64(0), 2: np.int64(1)} but the reported outcome is [0, 1, 0] for modes [2, 0, 1]')
 print('REPLAY-VIOLATION')
 sys.exit(1)
